@@ -111,7 +111,7 @@ class Constraint(object):
 
             try:
                 self._value = self.expression.eval()
-            except ValueError("The PEP must be solved to evaluate Expressions!"):
+            except ValueError:
                 raise ValueError("The PEP must be solved to evaluate Constraints!")
 
         return self._value
